@@ -134,8 +134,11 @@ def search(cfg, failure, repo='/repo'):
     del LAST_SEARCH[:]
     budget = max(30, int(cfg.get('max_seconds', 120) / max(1, len(parts))))
     for t in parts:
+        # "target@N": this target with universe N instead of the property's default
+        t, _, uni = t.partition('@')
+        uni = uni or str(cfg.get('universe', 6))
         try:
-            p = subprocess.run([exe, 'search', t, '--universe', str(cfg.get('universe', 6)), '--max-seconds', str(budget)] + _ignore_args(cfg, t),
+            p = subprocess.run([exe, 'search', t, '--universe', uni, '--max-seconds', str(budget)] + _ignore_args(cfg, t),
                                stdout=subprocess.PIPE, stderr=subprocess.PIPE, text=True, timeout=budget + 60)
         except subprocess.TimeoutExpired:
             continue
